@@ -48,6 +48,7 @@ pub struct WorkerResult {
     pub hashes: Vec<u64>,
     pub hashes_path: String,
     pub distinct_by_construction: bool,
+    pub wall_ms: u64,
 }
 
 pub struct WorkerArgs {
@@ -99,6 +100,10 @@ pub fn eval(prop: &dyn Prop, case: &Case, ctx: &mut Ctx) -> Outcome {
     logcap::clear();
     LAST_PANIC.with(|p| *p.borrow_mut() = None);
     match catch_unwind(AssertUnwindSafe(|| prop.check(case, ctx))) {
+        Ok(Outcome::Fail(mut f)) => {
+            f.facts.extend(input_facts(case));
+            Outcome::Fail(f)
+        }
         Ok(o) => o,
         Err(_) => {
             let (msg, loc, func) = LAST_PANIC
@@ -126,6 +131,21 @@ pub fn eval(prop: &dyn Prop, case: &Case, ctx: &mut Ctx) -> Outcome {
             )
         }
     }
+}
+
+/// Facts about the input that known-finding signatures may refer to.
+pub fn input_facts(case: &Case) -> Vec<String> {
+    let mut v = vec![];
+    let lone_cr = |s: &str| {
+        let b = s.as_bytes();
+        b.iter()
+            .enumerate()
+            .any(|(i, c)| *c == b'\r' && b.get(i + 1) != Some(&b'\n'))
+    };
+    if lone_cr(&case.input) || case.input2.as_deref().is_some_and(lone_cr) {
+        v.push("input:lone-cr".to_string());
+    }
+    v
 }
 
 fn fn_short(f: &str) -> String {
@@ -260,7 +280,7 @@ impl<'a> Runner<'a> {
     fn arm(&mut self, case: &Case, index: u64) {
         let (limit, hang) = match self.prop.hang_limit(case) {
             Some(s) => (s * 1000, 1),
-            None => (120_000, 0),
+            None => (if self.args.tier == Tier::Quick { 20_000 } else { 120_000 }, 0),
         };
         self.shared.index.store(index, Ordering::Release);
         self.shared.limit_ms.store(limit, Ordering::Release);
@@ -278,8 +298,19 @@ impl<'a> Runner<'a> {
     pub fn guarded_eval(&mut self, case: &Case, index: u64, kind: u8, payload: &[u8]) -> Outcome {
         self.beat(index, kind, payload);
         self.arm(case, index);
+        let t = Instant::now();
         let o = eval(self.prop, case, &mut self.ctx);
         self.disarm();
+        let dt = t.elapsed();
+        if dt.as_millis() > 2000 {
+            eprintln!(
+                "slow case: {:?} gen={} input {} bytes: {:?}",
+                dt,
+                case.gen,
+                case.input.len(),
+                short(&case.input, 300)
+            );
+        }
         o
     }
 
@@ -397,7 +428,8 @@ impl<'a> Runner<'a> {
         _tape: Option<&[u8]>,
         index: u64,
     ) -> (Case, Failure, bool) {
-        if !self.prop.text_shrink() {
+        // grammar-derived cases stay grammar-derived: only tape-level shrinking for them
+        if !self.prop.text_shrink() || case.ann.is_some() {
             return (case, f, false);
         }
         let clause = f.clause.clone();
@@ -621,6 +653,7 @@ impl<'a> Runner<'a> {
             *r.classes.entry(k.clone()).or_insert(0) += v;
         }
         r.completed = true;
+        r.wall_ms = self.t0.elapsed().as_millis() as u64;
         write_result(
             &self.args.outdir,
             &self.args.stream,
